@@ -81,6 +81,10 @@ class Ctx:
         self.solver.add(z3.Not(cond))
         r = self.solver.check()
         self.solver.pop()
+        if r == z3.unknown:
+            # no answer is not a verdict: the path is abandoned as inconclusive, never reported as a violation
+            self.unknowns += 1
+            raise Abort('solver gave no answer to an implication query')
         return r == z3.unsat
 
     def model(self):
